@@ -770,7 +770,7 @@ GROUPS = {
 }
 PROPERTY_SOURCES = {
     "C01": ["GEN"], "C02": ["DIST"], "C03": ["GEN"], "C04": ["HEX"], "C05": ["HEX"], "C06": ["HEX"], "C07": ["ALL"], "C08": ["DIST"],
-    "C09": ["src/length.rs"], "C10": ["GEN", "src/errors.rs"], "C11": ["GEN"], "C12": ["EASY", "src/generate.rs"],
+    "C09": ["src/length.rs", "src/generate.rs", "EASY"], "C10": ["GEN", "src/errors.rs"], "C11": ["GEN"], "C12": ["EASY", "src/generate.rs"],
     "C13": ["EASY", "src/hash.rs", "src/compare.rs"], "C14": ["HEX"], "C15": ["HEX", "src/pearson.rs", "src/generate.rs"],
     "C16": ["HEX"], "C17": ["ALL"], "C18": ["ALL"],
 }
